@@ -51,6 +51,12 @@ func runC20(p *Prog, r *Report) {
 	// R5: headers are relayed by adding them to the client writer's, through a helper that adds every value (relay shape shared with C07.R2)
 	checkCopyHeadersHelper(p, r, "C20.R5", true, true)
 	r.Borrow(p, runC07, map[string]string{"C07.R2": "C20.R5"}, nil)
+	// R6: the rate limiter has no spurious reason to intervene: its bookkeeping call cannot fail for any configured rate (shared with C03.R10)
+	if tl := p.Named("ratelimit", "TokenLimiter"); tl != nil {
+		c03TTLPositive(p, r, "C20.R6", tl)
+	} else {
+		r.Anchor("C20.R6", "ratelimit.TokenLimiter", "type not found")
+	}
 }
 
 func isFallbackServe(in ssa.Instruction) bool {
